@@ -794,8 +794,9 @@ let make_m1 (params : string list) : machine =
         if Sys.getenv_opt "VERIF_NOFMIRROR" = None then fmirror toks;
         r);
     classify = (fun toks model impl ->
-        match toks with
-        | [ "r"; t; "proof"; k ] ->
+        let rec strip = function ("fault" | "cost") :: (("r" :: _) as rest) -> strip rest | l -> l in
+        match strip toks with
+        | [ "r"; t; ("proof" | "gproof"); k ] ->
             (* C03-empty-value: ICS-23 rejects empty values, so a leaf with an empty value has no
                verifying existence proof, neither as the proved key nor as a bracketing neighbour *)
             let tg = parse_target t in
@@ -804,7 +805,13 @@ let make_m1 (params : string list) : machine =
               (match q (RGetByIndex (z_of_int i)) with
                | XPair (_, XBytes (Some [])) -> true
                | _ -> false) in
+            let empty_key_at i =
+              (match q (RGetByIndex (z_of_int i)) with
+               | XPair (XBytes (Some []), XBytes (Some _)) -> true
+               | _ -> false) in
             (match q (RGetWithIndex (bytes_of_tok k)) with
+             | XPair (_, XBytes (Some _)) when bytes_of_tok k = [] -> Some "C03-empty-key"
+             | XPair (XInt i, XBytes None) when int_of_z i = 1 && empty_key_at 0 -> Some "C03-empty-key"
              | XPair (_, XBytes (Some [])) -> Some "C03-empty-value"
              | XPair (XInt i, XBytes None) ->
                  let i = int_of_z i in
